@@ -529,6 +529,35 @@ pub fn run(ctx: &Ctx) -> (Spec, Report) {
         let variants = (0..ctx.tier.pick(12, 60)).map(|i| (format!("process#{i}"), vec![])).collect();
         jobs.push(Job { tree, lang, multi: true, variants, label: "fresh-processes-explicit-beside-glob".into(), dirs: vec![] });
     }
+    // (c4) a file that glob-imports three other crates and uses types of all of them (whatever is kept per glob, it is the
+    // same in every process), and fields that carry type overrides for five languages at once, each naming a typeshared
+    // item of the run (whatever an override means for the order of definitions, it means the same in every process)
+    for &lang in &[LangId::Ts, LangId::Kotlin, LangId::Swift, LangId::Python] {
+        let mut files = vec![];
+        for c in ["alpha", "beta", "gamma"] {
+            files.push(SrcFile { path: format!("{c}/src/lib.rs"), source: format!("#[typeshare]\npub struct {0}Thing {{ pub v: u32 }}\n#[typeshare]\n#[serde(rename = \"{0}Renamed\")]\npub struct {0}Other {{ pub w: u32 }}\n#[typeshare]\npub enum {0}Kind {{ A, B }}\n", crate::gen::cap(c)) });
+        }
+        files.push(SrcFile { path: "app/src/lib.rs".into(), source: "use alpha::*;\nuse beta::*;\nuse gamma::*;\n#[typeshare]\npub struct App { pub a: AlphaThing, pub b: Vec<BetaOther>, pub c: Option<GammaKind>, pub d: GammaOther }\n".into() });
+        files.push(SrcFile { path: "app/src/more.rs".into(), source: "use gamma::*;\nuse alpha::*;\n#[typeshare]\npub struct More { pub a: AlphaKind, pub c: GammaThing }\n".into() });
+        let tree = Tree { files, n_source_files: 5, has_consts: false };
+        let variants = (0..ctx.tier.pick(12, 60)).map(|i| (format!("process#{i}"), vec![])).collect();
+        jobs.push(Job { tree, lang, multi: true, variants, label: "fresh-processes-several-globs".into(), dirs: vec![] });
+    }
+    for &lang in ALL_LANGS.iter() {
+        for multi in [false, true] {
+            if multi && matches!(lang, LangId::Scala | LangId::Go) {
+                continue;
+            }
+            let ovr = "#[typeshare(swift(type = \"ZonedStamp\"), kotlin(type = \"YearStamp\"), typescript(type = \"WeekStamp\"), go(type = \"XmasStamp\"), scala(type = \"VoidStamp\"))]";
+            let files = vec![
+                SrcFile { path: "acct/src/lib.rs".into(), source: format!("#[typeshare]\npub struct Account {{\n    {ovr}\n    pub at: u32,\n    pub id: u32,\n}}\n#[typeshare]\n#[serde(tag = \"t\", content = \"c\")]\npub enum Event {{\n    Seen {{\n        {ovr}\n        at: u32,\n    }},\n    Gone,\n}}\n") },
+                SrcFile { path: "acct/src/stamps.rs".into(), source: "#[typeshare]\npub struct ZonedStamp { pub z: u32 }\n#[typeshare]\npub struct YearStamp { pub y: u32 }\n#[typeshare]\npub struct WeekStamp { pub w: u32 }\n#[typeshare]\npub struct XmasStamp { pub x: u32 }\n#[typeshare]\npub struct VoidStamp { pub v: u32 }\n".into() },
+            ];
+            let tree = Tree { files, n_source_files: 2, has_consts: false };
+            let variants = (0..ctx.tier.pick(12, 60)).map(|i| (format!("process#{i}"), vec![])).collect();
+            jobs.push(Job { tree, lang, multi, variants, label: "fresh-processes-override-targets".into(), dirs: vec![] });
+        }
+    }
     for &lang in ALL_LANGS.iter() {
         let items = gen_items(&mut rng, 14, langs_const.contains(&lang), langs_const.contains(&lang));
         let mut tree = layout(&items, 7, 3, &mut rng);
@@ -679,7 +708,7 @@ pub fn run(ctx: &Ctx) -> (Spec, Report) {
     }
     let spec = Spec {
         level: "exploration",
-        rule: "real hooked binary on generated trees (structs, enums, aliases, consts, a quarter of them annotated as #[typeshare::typeshare], over k files in several directories/crates (among them directories called target, build, node_modules, vendor, out, tests, debug, tmp), cross-file references): every permutation of arrival order for k <= 5 (quick) / 6 (thorough) via TYPESHARE_VERIF_ORDER, seeded permutations for k = 8/12/24, thread counts 1..16 x injected per-path delays (distinct delivered orders counted from the hook log), overlapping input directories (each file reachable through 2-4 of them) under 8 thread counts with and without delays, repeated processes for fresh hash seeds incl. a name defined in two other crates behind a re-export, and 5 re-splits of the same items; single- and multi-file mode, 6 languages; oracle = byte equality with the first run; thorough adds ThreadSanitizer and Miri (many-seeds) runs of the CLI; distinct = (workload, language, mode, more-than-one-order-observed)".into(),
+        rule: "real hooked binary on generated trees (structs, enums, aliases, consts, a quarter of them annotated as #[typeshare::typeshare], over k files in several directories/crates (among them directories called target, build, node_modules, vendor, out, tests, debug, tmp), cross-file references): every permutation of arrival order for k <= 5 (quick) / 6 (thorough) via TYPESHARE_VERIF_ORDER, seeded permutations for k = 8/12/24, thread counts 1..16 x injected per-path delays (distinct delivered orders counted from the hook log), overlapping input directories (each file reachable through 2-4 of them) under 8 thread counts with and without delays, repeated processes for fresh hash seeds incl. a name defined in two other crates behind a re-export, a file with three glob imports, fields with type overrides for five languages naming items of the run, and 5 re-splits of the same items; single- and multi-file mode, 6 languages; oracle = byte equality with the first run; thorough adds ThreadSanitizer and Miri (many-seeds) runs of the CLI; distinct = (workload, language, mode, more-than-one-order-observed)".into(),
         assumptions: vec![
             "the collector hook delivers exactly the permutation requested (its log is read back)".into(),
             "same-named items in one single-file run are outside the domain of the re-split oracle (the output defines the name twice); one fixed tree with repeated definitions is still run under every delivery order, because whatever is printed for it must not depend on that order".into(),
